@@ -12,10 +12,10 @@ def check(repo, rep, tier):
                        'enumeration, the result is only ever appended to in iteration order, and the query generator is '
                        'closed on every exit so that its bindings are undone (which in turn relies on C03.U1, re-checked '
                        'here). Where the limit strikes, and that the prefix is maximal, are run-time matters and not decided.')
-    rq.rule_limit_restored(em, rep, 'C17.P1')
-    rq.rule_depth_error_handled(em, rep, 'C17.P2')
-    rq.rule_prefix(em, rep, 'C17.P3')
-    rq.rule_query_finalised(em, rep, 'C17.P4')
-    rb.rule_undo_on_all_exits(em, rep, 'C17.P5')
-    rb.rule_no_exception_capture(em, rep, 'C17.P6')
-    rx.rule_depth_error_propagates(em, rep, 'C17.P7')
+    rep.run(rq.rule_limit_restored, em, rep, 'C17.P1')
+    rep.run(rq.rule_depth_error_handled, em, rep, 'C17.P2')
+    rep.run(rq.rule_prefix, em, rep, 'C17.P3')
+    rep.run(rq.rule_query_finalised, em, rep, 'C17.P4')
+    rep.run(rb.rule_undo_on_all_exits, em, rep, 'C17.P5')
+    rep.run(rb.rule_no_exception_capture, em, rep, 'C17.P6')
+    rep.run(rx.rule_depth_error_propagates, em, rep, 'C17.P7')
